@@ -21,6 +21,7 @@ type verifKindSample struct {
 
 var verifSamples = []verifKindSample{
 	{"Schema", func() any { return &Schema{} }, `{"type":"object","title":"t","format":"f","description":"d","enum":[1,"a"],"default":{"a":1},"example":[1],"externalDocs":{"url":"https://e"},"uniqueItems":true,"exclusiveMinimum":true,"exclusiveMaximum":true,"nullable":true,"readOnly":true,"allowEmptyValue":true,"deprecated":true,"xml":{"name":"n"},"minimum":1.5,"maximum":2.5,"multipleOf":0.5,"minLength":1,"maxLength":2,"pattern":"^a","minItems":1,"maxItems":2,"items":{"type":"string"},"required":["a"],"properties":{"a":{"type":"integer"}},"minProperties":1,"maxProperties":2,"additionalProperties":{"type":"string"},"discriminator":{"propertyName":"a"},"oneOf":[{"type":"string"}],"anyOf":[{"type":"number"}],"allOf":[{"$ref":"#/components/schemas/X"}],"not":{"type":"boolean"},"x-ext":1}`, nil},
+	{"SchemaZeros", func() any { return &Schema{} }, `{"type":"array","maxItems":0,"maxLength":0,"maxProperties":0,"minimum":0,"maximum":0,"default":0,"example":0,"enum":[0,false,""],"x-ext":0}`, nil},
 	{"SchemaAP", func() any { return &Schema{} }, `{"type":"object","writeOnly":true,"additionalProperties":false,"x-ext":{"k":[1,2]}}`, nil},
 	{"Parameter", func() any { return &Parameter{} }, `{"name":"p","in":"query","description":"d","style":"form","explode":true,"allowEmptyValue":true,"allowReserved":true,"deprecated":true,"required":true,"schema":{"type":"string"},"example":"e","examples":{"e":{"value":1}},"content":{"application/json":{"schema":{"type":"string"}}},"x-ext":"v"}`, nil},
 	{"Header", func() any { return &Header{} }, `{"description":"d","style":"simple","explode":false,"deprecated":true,"required":true,"schema":{"type":"string"},"example":"e","x-ext":1}`, nil},
